@@ -13,7 +13,7 @@ for d, _, fs in os.walk(os.path.join(root, "files")):
 # internal/verifsync (lock acquisitions become scheduling points of the harness' interleaving explorer, E6)
 gen = os.path.join(os.environ.get("VERIF_DIR", os.path.dirname(root)), "bin", "gen")
 os.makedirs(gen, exist_ok=True)
-for rel in ["internal/index/converters/cachefile.go"]:
+for rel in ["internal/index/converters/cachefile.go", "internal/tools/filename.go"]:
     try:
         src = open(os.path.join(repo, rel)).read()
     except OSError:
@@ -21,6 +21,10 @@ for rel in ["internal/index/converters/cachefile.go"]:
     if '\t"sync"\n' not in src:
         continue
     dst = os.path.join(gen, rel.replace("/", "__"))
-    open(dst, "w").write(src.replace('\t"sync"\n', '\tsync "github.com/spq/pkappa2/internal/verifsync"\n', 1))
+    src = src.replace('\t"sync"\n', '\tsync "github.com/spq/pkappa2/internal/verifsync"\n', 1)
+    if rel.endswith("filename.go"):
+        # readings of the clock become scheduling points with a controlled value
+        src = src.replace("time.Now()", "sync.Now()")
+    open(dst, "w").write(src)
     rep[os.path.join(repo, rel)] = dst
 print(json.dumps({"Replace": rep}, indent=1))
